@@ -7,7 +7,7 @@ From Coq Require Import List NArith ZArith Bool Lia.
 From GoPdf.Base Require Import Bytes Res.
 From GoPdf.Gen Require Import Gen_Consts Gen_Limits Gen_C05.
 From GoPdf.C05 Require Import Refill RefillProofs PrevChain PrevChainProofs Resolve ResolveProofs
-     Walk WalkProofs XRefCount XRefCountProofs.
+     Walk WalkProofs XRefCount XRefCountProofs ObjStmGet ObjStmGetProofs.
 Import ListNotations.
 Close Scope Z_scope.
 Close Scope N_scope.
@@ -225,4 +225,34 @@ Proof. vm_compute. reflexivity. Qed.
 Example xref_small :
   read_xref_stream (OInt 3) (OArr [OInt 1; OInt 1; OInt 0]) (OArr [OInt 1; OInt 2]) 10
                    [1; 9; 2; 5]%N [] = Ok ([(2, XInStm 5 0); (1, XUsed 9 0)]%Z, 2, None).
+Proof. vm_compute. reflexivity. Qed.
+
+(* ---- (6) object streams: no re-entry ---------------------------------- *)
+
+(* for ANY cross-reference table (any object claimed to be compressed in any
+   stream, itself included) and any indirect dictionary entries of the object
+   streams: because the container and its /Filter, /DecodeParms, ... are
+   fetched with canObjStm = false, calls of Reader.get nest at most two deep *)
+Theorem objstm_get_depth_bounded :
+  forall (xref : N -> entry) (member : N -> sobj) (fuel : nat) (ref : N) (can : bool),
+    2 <= fuel ->
+    get xref member false fuel ref can <> Err OutOfFuel.
+Proof. exact get_depth_bounded_lemma. Qed.
+Print Assumptions objstm_get_depth_bounded.
+
+(* the variant that fetches the dictionary entries of an object stream with
+   canObjStm = true re-enters without bound: object 10 compressed in stream 3
+   whose /Filter is the indirect object 10 *)
+Theorem objstm_get_reentry_refuted :
+  forall fuel, get bad_xref (fun _ => SVal) true fuel 10%N true = Err OutOfFuel.
+Proof. exact get_reentry_refuted_lemma. Qed.
+Print Assumptions objstm_get_reentry_refuted.
+
+Example objstm_same_stream_refused :
+  get_in [(10, EInStm 3); (3, EDirect (SStm 3 [10]))]%N [] 10%N = Err Malformed.
+Proof. vm_compute. reflexivity. Qed.
+
+Example objstm_ordinary_filter_ok :
+  get_in [(10, EInStm 3); (3, EDirect (SStm 3 [30])); (30, EDirect (SRef 31)); (31, EDirect SVal)]%N
+         [(10, SRef 7)]%N 10%N = Ok (SRef 7%N).
 Proof. vm_compute. reflexivity. Qed.
